@@ -229,7 +229,19 @@ def api_solve(t):
         kw["nsweep"] = t["nsweep"]
     if t.get("grad"):
         kw["return_gradient"] = True
-    r = e.solve(t["sources"], **kw)
+    if "big" in t:
+        # diagnosis only (interpreter mode): run with another value of the module constant `Big`, the "not reached
+        # yet" sentinel, to tell whether a deviation is an instance of the known Big-sentinel finding
+        import fteikpy._fteik._fteik2d as _k2
+        import fteikpy._fteik._fteik3d as _k3
+        old = (_k2.Big, _k3.Big)
+        _k2.Big = _k3.Big = float(t["big"])
+        try:
+            r = e.solve(t["sources"], **kw)
+        finally:
+            _k2.Big, _k3.Big = old
+    else:
+        r = e.solve(t["sources"], **kw)
     many = isinstance(r, list)
     grids = r if many else [r]
     out = {"many": many, "grids": [_ttinfo(g, bool(t.get("grad"))) for g in grids]}
